@@ -105,7 +105,7 @@ impl Parser {
         if optional_for_plain
             || !expected_return_type.eq_complex(
                 &Cow::Borrowed(supplied_type),
-                &TypecheckFlags::use_class(class_type).lhs_unwrap(true),
+                &TypecheckFlags::use_class(class_type).lhs_unwrap(false),
             )
         {
             return Err(vec![new_err(
